@@ -428,28 +428,31 @@ def r12_3(ctx):
     # _handle_frame_sent completes only its own entry
     f = repo.func(f"{APP}:ControllerApplication._handle_frame_sent")
     ctx.fn(f)
-    mt = repo.cls(NAMED, "EmberOutgoingMessageType").members()["OUTGOING_DIRECT"]
-    for scen, dest, tag in (("own", 0x1234, 7), ("other-tag", 0x1234, 8), ("other-dest", 0x9999, 7), ("unknown", 1, 2),
-                            # tags are 16 bit wide from version 14 on, destinations always: equal low bytes are different requests
-                            ("tag-equal-mod-256", 0x1234, 7 + 256), ("tag-equal-mod-128", 0x1234, 7 + 128), ("dest-equal-low-byte", 0x5634, 7),
-                            ("dest-equal-high-byte", 0x1299, 7)):
-        for done in (False, True):
-            px = PX(repo, inline=same_class(), models=[("*.set_result", Outcomes(RAISE("InvalidStateError")) if done else Outcomes(OK(None)))])
+    mts = repo.cls(NAMED, "EmberOutgoingMessageType").members()
+    # (whatever outgoing type the confirmation names: direct, via the address table, via a binding, ... - the pending entry is
+    # identified by destination and tag alone, never by a looser match for some types)
+    for mt_name, mt in [(n_, m_) for n_, m_ in mts.items()]:
+      for scen, dest, tag in (  ("own", 0x1234, 7), ("other-tag", 0x1234, 8), ("other-dest", 0x9999, 7), ("unknown", 1, 2),
+                              # tags are 16 bit wide from version 14 on, destinations always: equal low bytes are different requests
+                              ("tag-equal-mod-256", 0x1234, 7 + 256), ("tag-equal-mod-128", 0x1234, 7 + 128), ("dest-equal-low-byte", 0x5634, 7),
+                              ("dest-equal-high-byte", 0x1299, 7)):
+          for done in (False, True):
+              px = PX(repo, inline=same_class(), models=[("*.set_result", Outcomes(RAISE("InvalidStateError")) if done else Outcomes(OK(None)))])
 
-            def setup():
-                reqs = {(0x1234, 7): Obj(TypeRef("Request"), {"result": fut("own_future")}, tag="own_req"),
-                        (5, 6): Obj(TypeRef("Request"), {"result": fut("other_future")}, tag="other_req")}
-                return (self_obj(app_cls(ctx), {"_pending": reqs}), {"message_type": mt, "destination": dest, "aps_frame": Sym("aps"), "message_tag": tag,
-                                                                    "status": repo.cls(NAMED, "sl_Status").members()["OK"], "message": Sym("m")})
+              def setup():
+                  reqs = {(0x1234, 7): Obj(TypeRef("Request"), {"result": fut("own_future")}, tag="own_req"),
+                          (5, 6): Obj(TypeRef("Request"), {"result": fut("other_future")}, tag="other_req")}
+                  return (self_obj(app_cls(ctx), {"_pending": reqs}), {"message_type": mt, "destination": dest, "aps_frame": Sym("aps"), "message_tag": tag,
+                                                                      "status": repo.cls(NAMED, "sl_Status").members()["OK"], "message": Sym("m")})
 
-            for p in px.explore(f, setup):
-                sr = [e for e in p.events if e.kind == "call" and e.what.endswith(".set_result")]
-                if scen == "own":
-                    ok = p.terminal == "return" and [e.callee for e in sr] == ["own_future.set_result"]
-                else:
-                    ok = p.terminal == "return" and not sr
-                ctx.require(ok, f"_handle_frame_sent:{scen}:done={done}", f"confirmation for ({dest!r}, {tag!r}) [{scen}], future {'done' if done else 'open'}: "
-                            f"completes {[e.callee for e in sr]}, {p.terminal} {p.value!r}", func=f, trace=p.trace(12))
+              for p in px.explore(f, setup):
+                  sr = [e for e in p.events if e.kind == "call" and e.what.endswith(".set_result")]
+                  if scen == "own":
+                      ok = p.terminal == "return" and [e.callee for e in sr] == ["own_future.set_result"]
+                  else:
+                      ok = p.terminal == "return" and not sr
+                  ctx.require(ok, f"_handle_frame_sent:{scen}:done={done}" + ("" if mt_name == "OUTGOING_DIRECT" else f":{mt_name}"), f"confirmation for ({dest!r}, {tag!r}) [{scen}], future {'done' if done else 'open'}: "
+                              f"completes {[e.callee for e in sr]}, {p.terminal} {p.value!r}", func=f, trace=p.trace(12))
 
 
 @rule("R12.6", ["C12"], "T-FUN", floor=1)
